@@ -161,6 +161,8 @@ func Containers() []Named {
 		N("nil *[]int", nilPtrSlice), N("nil *map", nilPtrMap), N("nil *Thing", nilPtrThing),
 		N("string", "hello"), N("int", 5), N("nil", nil), N("bool", true), N("func", func() int { return 1 }), N("chan", make(chan int)),
 		N("safe-slice", stick.NewSafeValue([]int{1, 2}, "html")),
+		N("OuterVal", OuterVal{Inner{"in", 1}, 2}), N("*OuterVal", &OuterVal{Inner{"pin", 3}, 4}), N("OuterPtr", OuterPtr{&Inner{"ep", 5}, 6}), N("OuterPtr nil-embedded", OuterPtr{nil, 7}), N("*OuterPtr nil-embedded", &OuterPtr{nil, 8}),
+		N("OuterIface", func() OuterIface { n := 9; pn := &n; return OuterIface{Any: []int{1}, PP: &pn, Next: &OuterIface{Any: "leaf"}} }()), N("OuterIface zero", OuterIface{}),
 		N("local T #1", localT1()), N("local T #2", localT2()), N("*local T #3", localT3()),
 		N("map[KeyStr]int", map[KeyStr]int{"a": 1, "1": 2, "true": 3, "1.5": 4}), N("map[KeyInt]string", map[KeyInt]string{1: "one", 0: "zero"}), N("map[KeyStr]int nil", map[KeyStr]int(nil)),
 		N("NamedSlice", NamedSlice{5, 6}), N("NamedMap", NamedMap{"a": 1}), N("[]KeyStr", []KeyStr{"x", "y"}),
@@ -174,7 +176,7 @@ func Keys() []Named {
 		N("'a'", "a"), N("'k'", "k"), N("'1'", "1"), N("'0'", "0"), N("'Name'", "Name"), N("'hidden'", "hidden"), N("'ValueMethod'", "ValueMethod"), N("'PtrMethod'", "PtrMethod"),
 		N("'Add'", "Add"), N("'Variadic'", "Variadic"), N("'Join'", "Join"), N("'Fmt'", "Fmt"), N("'Two'", "Two"), N("'Nothing'", "Nothing"), N("'NilFunc'", "NilFunc"), N("'Fn'", "Fn"), N("'TakesPtr'", "TakesPtr"),
 		N("'TakesIface'", "TakesIface"), N("'TakesFloat'", "TakesFloat"), N("'TakesSlice'", "TakesSlice"), N("'Concat'", "Concat"), N("'hiddenMethod'", "hiddenMethod"), N("'missing'", "missing"), N("''", ""),
-		N("'Items'", "Items"), N("'Inner'", "Inner"), N("'Any'", "Any"), N("'Attrs'", "Attrs"), N("'A'", "A"), N("'B'", "B"), N("'C'", "C"), N("KeyStr('a')", KeyStr("a")), N("KeyInt(1)", KeyInt(1)), N("'true'", "true"),
+		N("'Items'", "Items"), N("'Inner'", "Inner"), N("'Any'", "Any"), N("'Attrs'", "Attrs"), N("'A'", "A"), N("'B'", "B"), N("'C'", "C"), N("'N'", "N"), N("'Extra'", "Extra"), N("'Hello'", "Hello"), N("'PtrHello'", "PtrHello"), N("'PP'", "PP"), N("'Next'", "Next"), N("KeyStr('a')", KeyStr("a")), N("KeyInt(1)", KeyInt(1)), N("'true'", "true"),
 		// strings that strconv.ParseFloat accepts but that are no usable index
 		N("'NaN'", "NaN"), N("'nan'", "nan"), N("'Inf'", "Inf"), N("'-Inf'", "-Inf"), N("'+Infinity'", "+Infinity"), N("'1e400'", "1e400"), N("'0x1'", "0x1"), N("'0x1p-2'", "0x1p-2"),
 		N("'1e0'", "1e0"), N("'1.0'", "1.0"), N("' 1'", " 1"), N("'-0'", "-0"), N("'1_0'", "1_0"),
@@ -244,3 +246,29 @@ type (
 	NamedSlice []int
 	NamedMap   map[string]int
 )
+
+// Embedded structs: promoted fields and methods, through a value, a pointer and a nil pointer.
+type Inner struct {
+	Name string
+	N    int
+}
+
+func (i Inner) Hello() string     { return "hello " + i.Name }
+func (i *Inner) PtrHello() string { return "ptr-hello " + i.Name }
+
+type OuterVal struct {
+	Inner
+	Extra int
+}
+
+type OuterPtr struct {
+	*Inner
+	Extra int
+}
+
+// OuterIface has an interface-typed field and a pointer to a pointer.
+type OuterIface struct {
+	Any  interface{}
+	PP   **int
+	Next *OuterIface
+}
